@@ -255,6 +255,53 @@ def check (cf : Conf) (now : Nat) (hashes : List Hash)
       (⟨.blocked matched, some q⟩, storeInCache now cf.ttl toReq (ord recv) c1)
 
 
+/-! ### overlapping lookups on one Checker
+
+`Check` shares nothing with other `Check` calls but the cache (golibs/cache
+serialises its own operations) and the upstream: the request message is built
+from locals.  A lookup is two steps as far as other lookups can see: the cache
+scan (`findInCache`) and, if something has to be asked, the exchange followed
+by `storeInCache`. -/
+
+/-- second half of `Check`: ask about `toReq`, match, store -/
+def checkAnswer (cf : Conf) (now : Nat) (toReq : List Hash)
+    (exchange : Bytes → Option (List RR)) (ord : List Hash → List (Prefix × List Hash)) (c : Cache) :
+    Outcome × Cache :=
+  let q := getQuestion cf.suffix toReq
+  match exchange q with
+  | none => (⟨.upstreamErr, some q⟩, c)
+  | some answer =>
+    let recv := receivedHashes answer
+    (⟨.blocked (findMatch toReq recv), some q⟩, storeInCache now cf.ttl toReq (ord recv) c)
+
+/-- N lookups in flight on one cache -/
+structure ConcC where
+  cache : Cache
+  /-- per lookup: 0 not started, 1 scanned the cache and has to ask, 2 finished -/
+  pc : Nat → Nat
+  /-- what lookup `i` has to ask about (pc = 1) -/
+  pend : Nat → List Hash
+  res : Nat → Option Outcome
+
+def ConcC.init (c : Cache) : ConcC := ⟨c, fun _ => 0, fun _ => [], fun _ => none⟩
+
+/-- lookup `i` (hashes `hs i`) makes its next step -/
+def stepC (cf : Conf) (now : Nat) (hs : Nat → List Hash) (exchange : Bytes → Option (List RR))
+    (ord : List Hash → List (Prefix × List Hash)) (s : ConcC) (i : Nat) : ConcC :=
+  if s.pc i = 0 then
+    match findInCache now (hs i) s.cache with
+    | (.cached b, c1) =>
+      { s with cache := c1, pc := fun k => if k = i then 2 else s.pc k,
+               res := fun k => if k = i then some ⟨.blocked b, none⟩ else s.res k }
+    | (.ask toReq, c1) =>
+      { s with cache := c1, pc := fun k => if k = i then 1 else s.pc k,
+               pend := fun k => if k = i then toReq else s.pend k }
+  else if s.pc i = 1 then
+    let r := checkAnswer cf now (s.pend i) exchange ord s.cache
+    { s with cache := r.2, pc := fun k => if k = i then 2 else s.pc k,
+             res := fun k => if k = i then some r.1 else s.res k }
+  else s
+
 /-! ### constants of hashprefix.go (tied to the source by the fact line C19.consts) -/
 
 def prefixLen : Nat := 2       -- prefixLen
